@@ -94,20 +94,22 @@ Record st := mkSt {
   s_bg : gset name;                                (* resyncQueue, "background" tier *)
   s_bgreq : bool;                                  (* bgResyncRequested *)
   s_full : bool;                                   (* fullResyncRequired *)
-  s_panic : bool                                   (* the Go code panicked *)
+  s_panic : bool;                                  (* the Go code panicked *)
+  s_fix2 : bool                                    (* configuration, never changes: the tree has fixes/C16-temp-set-flags.patch *)
 }.
-Definition init_st : st := mkSt ∅ ∅ ∅ ∅ 0 ∅ ∅ false true false.
+Definition init_st : st := mkSt ∅ ∅ ∅ ∅ 0 ∅ ∅ false true false false.
 
-Definition set_des f s := mkSt (f (s_des s)) (s_dp s) (s_trk s) (s_dirty s) (s_next s) (s_must s) (s_bg s) (s_bgreq s) (s_full s) (s_panic s).
-Definition set_dp f s := mkSt (s_des s) (f (s_dp s)) (s_trk s) (s_dirty s) (s_next s) (s_must s) (s_bg s) (s_bgreq s) (s_full s) (s_panic s).
-Definition set_trk f s := mkSt (s_des s) (s_dp s) (f (s_trk s)) (s_dirty s) (s_next s) (s_must s) (s_bg s) (s_bgreq s) (s_full s) (s_panic s).
-Definition set_dirty f s := mkSt (s_des s) (s_dp s) (s_trk s) (f (s_dirty s)) (s_next s) (s_must s) (s_bg s) (s_bgreq s) (s_full s) (s_panic s).
-Definition set_next v s := mkSt (s_des s) (s_dp s) (s_trk s) (s_dirty s) v (s_must s) (s_bg s) (s_bgreq s) (s_full s) (s_panic s).
-Definition set_must f s := mkSt (s_des s) (s_dp s) (s_trk s) (s_dirty s) (s_next s) (f (s_must s)) (s_bg s) (s_bgreq s) (s_full s) (s_panic s).
-Definition set_bg f s := mkSt (s_des s) (s_dp s) (s_trk s) (s_dirty s) (s_next s) (s_must s) (f (s_bg s)) (s_bgreq s) (s_full s) (s_panic s).
-Definition set_bgreq v s := mkSt (s_des s) (s_dp s) (s_trk s) (s_dirty s) (s_next s) (s_must s) (s_bg s) v (s_full s) (s_panic s).
-Definition set_full v s := mkSt (s_des s) (s_dp s) (s_trk s) (s_dirty s) (s_next s) (s_must s) (s_bg s) (s_bgreq s) v (s_panic s).
-Definition set_panic v s := mkSt (s_des s) (s_dp s) (s_trk s) (s_dirty s) (s_next s) (s_must s) (s_bg s) (s_bgreq s) (s_full s) v.
+Definition set_des f s := mkSt (f (s_des s)) (s_dp s) (s_trk s) (s_dirty s) (s_next s) (s_must s) (s_bg s) (s_bgreq s) (s_full s) (s_panic s) (s_fix2 s).
+Definition set_dp f s := mkSt (s_des s) (f (s_dp s)) (s_trk s) (s_dirty s) (s_next s) (s_must s) (s_bg s) (s_bgreq s) (s_full s) (s_panic s) (s_fix2 s).
+Definition set_trk f s := mkSt (s_des s) (s_dp s) (f (s_trk s)) (s_dirty s) (s_next s) (s_must s) (s_bg s) (s_bgreq s) (s_full s) (s_panic s) (s_fix2 s).
+Definition set_dirty f s := mkSt (s_des s) (s_dp s) (s_trk s) (f (s_dirty s)) (s_next s) (s_must s) (s_bg s) (s_bgreq s) (s_full s) (s_panic s) (s_fix2 s).
+Definition set_next v s := mkSt (s_des s) (s_dp s) (s_trk s) (s_dirty s) v (s_must s) (s_bg s) (s_bgreq s) (s_full s) (s_panic s) (s_fix2 s).
+Definition set_must f s := mkSt (s_des s) (s_dp s) (s_trk s) (s_dirty s) (s_next s) (f (s_must s)) (s_bg s) (s_bgreq s) (s_full s) (s_panic s) (s_fix2 s).
+Definition set_bg f s := mkSt (s_des s) (s_dp s) (s_trk s) (s_dirty s) (s_next s) (s_must s) (f (s_bg s)) (s_bgreq s) (s_full s) (s_panic s) (s_fix2 s).
+Definition set_bgreq v s := mkSt (s_des s) (s_dp s) (s_trk s) (s_dirty s) (s_next s) (s_must s) (s_bg s) v (s_full s) (s_panic s) (s_fix2 s).
+Definition set_full v s := mkSt (s_des s) (s_dp s) (s_trk s) (s_dirty s) (s_next s) (s_must s) (s_bg s) (s_bgreq s) v (s_panic s) (s_fix2 s).
+Definition set_fix2 v s := mkSt (s_des s) (s_dp s) (s_trk s) (s_dirty s) (s_next s) (s_must s) (s_bg s) (s_bgreq s) (s_full s) (s_panic s) v.
+Definition set_panic v s := mkSt (s_des s) (s_dp s) (s_trk s) (s_dirty s) (s_next s) (s_must s) (s_bg s) (s_bgreq s) (s_full s) v (s_fix2 s).
 
 (* resyncQueue.Add / Remove *)
 Definition rq_add_must (n : name) (s : st) : st :=
@@ -350,7 +352,9 @@ Definition write_updates (fx : bool) (n : name) (lines : list cmd) (wfail : bool
             end
           else if complete then
             let s2 := set_trk <[n := (md, md)]> s1 in
-            let s3 := if need_t then match dpm with Some d => set_dp <[target := d]> s2 | None => s2 end else s2 in
+            (* the temporary name now holds the old set; the code copies the old view metadata INCLUDING the
+               DeleteFailed / ListFailed flags unless repaired (s_fix2) *)
+            let s3 := if need_t then match dpm with Some d => set_dp <[target := if s_fix2 s then clean d.1 else d]> s2 | None => s2 end else s2 in
             let s4 := if need_c || need_t then set_dp <[n := clean dm]> s3 else s3 in
             Some (s4, false)
           else None
